@@ -273,7 +273,7 @@ func runC10(w *core.W) {
 	cfg := c10Cfg()
 	r := w.RNG("suff")
 	var data val.V
-	for i, n := 0, w.Pick(20000, 300000); i < n; i++ {
+	for i, n := 0, w.Pick(60000, 900000); i < n; i++ {
 		if i%32 == 0 {
 			data = StdData(r)
 		}
@@ -288,7 +288,7 @@ func runC10(w *core.W) {
 	full := gen.FullSyntax()
 	full.Kws = []string{"null", "true", "false", "this"}
 	r = w.RNG("syntax")
-	for i, n := 0, w.Pick(30000, 400000); i < n; i++ {
+	for i, n := 0, w.Pick(90000, 1200000); i < n; i++ {
 		src := ref.Print(full.Node(r, 1+r.Intn(6)))
 		c10Fields(w, &FieldCase{Src: src})
 		if i%5003 == 0 {
